@@ -11,6 +11,8 @@ ALPHA = list("?*$:<>()[]{},-!/.ab") + ["é", "中", "\n", " ", "^", "|", "i", "(
 def strings(seed, n):
     r = random.Random(seed)
     out = ["", "a", "/", "a/b", "?*$:<>()[]{},", "-", "(?i)a", "[a]", "**", "a/**/b", "{a,b}", "<a:1,2>", "/a", "a/", "!", "[!a]", "中/é", "\n"]
+    # strings that START or END like a relative path written with `.` / `..` / `~` (no normalisation happens anywhere)
+    out += ["./a", "./", "././a", "./record[D00,00].txt", "../a", "..", ".", "a/.", "a/./b", "a/..", "~/a", "./.", ".a", "a/.b", " a", "a ", " ./a"]
     # every printable ASCII character, alone and inside text (the parser and is_meta_character must agree on each)
     for cp in range(0x20, 0x7f):
         c = chr(cp)
@@ -90,7 +92,8 @@ def run(rep, tier, seed, replay):
     for k in idx:
         s0 = ss[k]
         for w, want in [(s0, True), (s0 + "\n", False), ("\n" + s0, False), (s0 + "\nx", False), ("x\n" + s0, False), (s0 + "\r\n" + s0, False),
-                        (s0 + s0, s0 == ""), (s0 + "\n" + s0, False), (s0[:-1], s0 == "")]:
+                        (s0 + s0, s0 == ""), (s0 + "\n" + s0, False), (s0[:-1], s0 == ""), ("./" + s0, False), (s0 + "/.", False),
+                        (s0[2:] if s0.startswith("./") else "../" + s0, False), (s0.strip() if s0.strip() != s0 else s0 + " ", False)]:
             probes.append("M %s %s" % (hexs(esc[k]), hexs(w)))
             powner.append((k, w, want))
     flagged = set()
